@@ -83,6 +83,9 @@ def classify_line(line: str, n_extra: int):
         # malformed under EVERY reading when, even with all Unicode whitespace taken as separators, it has fewer than
         # seven fields or a field Python cannot read as a number (a lone Ctrl-Z, say); otherwise it is ambiguous.
         wide = line.split()
+        if wide and wide[0].startswith("#"):
+            # `#` preceded by exotic blanks (NBSP, NEL, ...): a comment for a reader that skips any Unicode whitespace
+            return ("ambig", "comment mark after exotic whitespace")
         if len(wide) < 7 or not all(_python_numeric(t) for t in wide[:7]):
             return ("bad", "exotic characters and not a data row under any reading")
         return ("ambig", "exotic character")
